@@ -351,7 +351,7 @@ function list_get(l, i)
     if x ~= nil then
         return __VARIANT({"Just", x})
     else
-        return __VARIANT({"None", nil})
+        return __VARIANT({"None", __NIL})
     end
 end
 
@@ -390,7 +390,7 @@ function list_find(l, p)
             return __VARIANT({"Just", x})
         end
     end
-    return __VARIANT({"None", nil})
+    return __VARIANT({"None", __NIL})
 end
 
 function xx_len(c)
@@ -421,7 +421,7 @@ function as_char(s)
    if char ~= nil then
       return __VARIANT({"Just", char})
    else
-      return __VARIANT({"None", nil})
+      return __VARIANT({"None", __NIL})
    end
 end
 function as_chars(s)
@@ -535,7 +535,7 @@ end
 function dict_get(dict, k)
     local x = dict[tostring(k)]
     if x == nil then
-       return __VARIANT({"None", nil})
+       return __VARIANT({"None", __NIL})
     else
        return __VARIANT({"Just", x[2]})
     end
